@@ -23,6 +23,9 @@ Linear(y1, y2, x, a) == Trapz2([i \in 1..Len(x) |-> a * y1[i] + y2[i]], x) = a *
 Additive(y, x, k) == Trapz2(y, x) = Trapz2([i \in 1..k |-> y[i]], [i \in 1..k |-> x[i]])
                                    + Trapz2([i \in 1..(Len(y) - k + 1) |-> y[k - 1 + i]], [i \in 1..(Len(y) - k + 1) |-> x[k - 1 + i]])
 SignReversal(y, x) == Trapz2(Rev(y), Rev(x)) = -Trapz2(y, x)
+\* the integral is homogeneous in the coordinate: x -> s x (+ any shift) scales it by s - whatever the size of s
+\* (grids in metres with nanometre steps are grids like any other)
+Homogeneous(y, x, s, sh) == Trapz2(y, [i \in 1..Len(x) |-> s * x[i] + sh]) = s * Trapz2(y, x)
 
 \* ---- hydrostatic quantities as rational functions --------------------------------
 \* specific humidity from volume mixing ratio with m = Md/Mw:  q = x / ((1 - x) m + x)
@@ -52,6 +55,7 @@ Next == UNCHANGED <<x, y1, y2>>
 Laws == /\ \A a \in {-2, 3} : Linear(y1, y2, x, a)
         /\ \A k \in 1..Len(x) : Additive(y1, x, k)
         /\ SignReversal(y1, x)
+        /\ \A s \in {2, 5, -3} : \A sh \in {0, 7} : Homogeneous(y1, x, s, sh)
         /\ Trapz2(y1, Unit(Len(x))) = TrapzTo(y1, [i \in 1..Len(x) |-> i], Len(x))
 
 \* replay cases: rank-1/2/3 arrays assembled from y1, y2 by fixed index formulas
